@@ -622,6 +622,10 @@ func c08Plans() []c08Plan {
 		// extended alphabet of DESIGN §5 (space and a multi-byte payload character; '#' is payload when no comment character is set)
 		{c08Cfg{Mode: "csv", Comment: "#"}, []string{"a", ",", "\"", "\n", "\r", "#", " ", "é"}, [2]int{5, 6}, [2]int{4, 4}, [2]int{3, 4}},
 		{c08Cfg{Mode: "csv"}, []string{"a", ",", "\"", "\n", "\r", "#", " ", "é"}, [2]int{4, 5}, [2]int{4, 5}, [2]int{3, 4}},
+		// bytes that collide with in-band sentinels: NUL (rune 0 = "no comment character") and an invalid UTF-8 byte (decodes to U+FFFD)
+		{c08Cfg{Mode: "csv"}, []string{"a", ",", "\"", "\n", "\x00", "\xff"}, [2]int{5, 6}, [2]int{4, 5}, [2]int{4, 5}},
+		{c08Cfg{Mode: "csv", Comment: "#", Header: true}, []string{"\x00", ",", "\n", "#", "\xff"}, [2]int{5, 6}, [2]int{4, 5}, [2]int{4, 5}},
+		{c08Cfg{Mode: "tsv"}, []string{"\x00", "\t", "\n", "\xff", "\\"}, [2]int{5, 6}, [2]int{4, 5}, [2]int{4, 5}},
 	}
 }
 
